@@ -42,6 +42,7 @@ import (
 	"strconv"
 	"strings"
 
+	"github.com/OffchainLabs/go-bitfield"
 	eth2api "github.com/attestantio/go-eth2-client/api"
 	eth2v1 "github.com/attestantio/go-eth2-client/api/v1"
 	eth2spec "github.com/attestantio/go-eth2-client/spec"
@@ -514,6 +515,7 @@ func (e *episode) execRt(run *hx.Run, o rtOp) {
 	// 1. build and sign the elements, fix the environment from the honest objects, alter fields of the wire objects
 	var wires []any
 	var tmplKeys [][32]byte
+	var tmplSample *sample
 	for i, it := range o.items {
 		ba := buildArgs{valIdx: cl.valIdxOf(it.val), ver: it.ver % 7, blinded: kind == kBProp, epoch: it.epoch, slotOff: it.slotOff % spe,
 			subcomm: it.subcomm, commIdx: uint64(1 + ((it.val + 8) % 8)), vci: uint64((it.val + 8) % 8), commLen: 8, vcDoor: true}
@@ -521,17 +523,20 @@ func (e *episode) execRt(run *hx.Run, o rtOp) {
 			ba.ver = 2
 		}
 		if o.tmpl > 0 {
-			// one template for the whole request: the generators draw the same random content for every
-			// element (same seed), slot and subcommittee are those of the first element; only what names
-			// the validator differs
-			rand.Seed(int64(o.seed))
+			// one template for the whole request: every element is a deep copy of the first one in which
+			// only what names the validator is set anew (then signed by that validator's share)
 			ba.epoch, ba.slotOff, ba.subcomm, ba.ver = o.items[0].epoch, o.items[0].slotOff%spe, o.items[0].subcomm, o.items[0].ver%7
 			if o.tmpl == 1 {
 				ba.commIdx = uint64(1 + ((o.items[0].val + 8) % 8))
 			}
 		}
-		_ = i
-		s := buildSample(kind, ba)
+		var s *sample
+		if o.tmpl > 0 && i > 0 {
+			s = retarget(tmplSample, ba)
+		} else {
+			s = buildSample(kind, ba)
+			tmplSample = &sample{s.kind, deepCopy(reflect.ValueOf(s.obj)).Interface()} // pristine copy: later alterations of element 0 stay in element 0
+		}
 		inner := "ok"
 		if strings.HasPrefix(it.alt.kind, "inner") {
 			inner = it.alt.kind
@@ -833,6 +838,94 @@ func (e *episode) execRt(run *hx.Run, o rtOp) {
 		return
 	}
 	run.Op(o.recipe()+" | "+abs, status+" "+e.renderCalls(calls))
+}
+
+// deepCopy clones a value built from pointers, structs, slices, arrays and scalars.
+func deepCopy(v reflect.Value) reflect.Value {
+	switch v.Kind() {
+	case reflect.Ptr:
+		if v.IsNil() {
+			return v
+		}
+		n := reflect.New(v.Type().Elem())
+		n.Elem().Set(deepCopy(v.Elem()))
+		return n
+	case reflect.Struct:
+		n := reflect.New(v.Type()).Elem()
+		n.Set(v)
+		for i := 0; i < v.NumField(); i++ {
+			if v.Type().Field(i).IsExported() {
+				n.Field(i).Set(deepCopy(v.Field(i)))
+			}
+		}
+		return n
+	case reflect.Slice:
+		if v.IsNil() {
+			return v
+		}
+		n := reflect.MakeSlice(v.Type(), v.Len(), v.Len())
+		for i := 0; i < v.Len(); i++ {
+			n.Index(i).Set(deepCopy(v.Index(i)))
+		}
+		return n
+	case reflect.Array:
+		n := reflect.New(v.Type()).Elem()
+		for i := 0; i < v.Len(); i++ {
+			n.Index(i).Set(deepCopy(v.Index(i)))
+		}
+		return n
+	}
+	return v
+}
+
+// retarget: a deep copy of the template sample that names another validator (signatures are set afterwards).
+func retarget(t *sample, a buildArgs) *sample {
+	obj := deepCopy(reflect.ValueOf(t.obj)).Interface()
+	vidx := eth2p0.ValidatorIndex(a.valIdx)
+	switch x := obj.(type) {
+	case *eth2spec.VersionedAttestation:
+		if x.Version >= eth2spec.DataVersionElectra {
+			att := x.Electra
+			if x.Version == eth2spec.DataVersionFulu {
+				att = x.Fulu
+			}
+			vi := vidx
+			x.ValidatorIndex = &vi
+			cb := bitfield.NewBitvector64()
+			cb.SetBitAt(a.commIdx, true)
+			att.CommitteeBits = cb
+			att.AggregationBits = oneBit(a.commLen, a.vci)
+		} else {
+			for _, att := range []*eth2p0.Attestation{x.Phase0, x.Altair, x.Bellatrix, x.Capella, x.Deneb} {
+				if att != nil {
+					att.AggregationBits = oneBit(a.commLen, a.vci)
+					att.Data.Index = eth2p0.CommitteeIndex(a.commIdx)
+				}
+			}
+		}
+	case *eth2spec.VersionedSignedAggregateAndProof:
+		for _, ag := range []*eth2p0.SignedAggregateAndProof{x.Phase0, x.Altair, x.Bellatrix, x.Capella, x.Deneb} {
+			if ag != nil {
+				ag.Message.AggregatorIndex = vidx
+			}
+		}
+		for _, ag := range []*electra.SignedAggregateAndProof{x.Electra, x.Fulu} {
+			if ag != nil {
+				ag.Message.AggregatorIndex = vidx
+			}
+		}
+	case *altair.SyncCommitteeMessage:
+		x.ValidatorIndex = vidx
+	case *altair.SignedContributionAndProof:
+		x.Message.AggregatorIndex = vidx
+	case *eth2v1.BeaconCommitteeSelection:
+		x.ValidatorIndex = vidx
+	case *eth2v1.SyncCommitteeSelection:
+		x.ValidatorIndex = vidx
+	default:
+		panic("retarget: unsupported kind")
+	}
+	return &sample{t.kind, obj}
 }
 
 // templateKey: hash tree root of the sub-object the elements of a shared-template request have in common.
